@@ -15,6 +15,22 @@ def build(spec, n_ids=None):
     return m
 
 
+def build_early(spec, n_ids):
+    """A Red spec whose wrapper is created and whose parameters are fixed (by name)
+    while the wrapped model still has one individual; whoever receives the model
+    sets the number of individuals afterwards. Returns None when a fixed name does
+    not exist yet for one individual."""
+    names_full = _build(spec['inner'], n_ids).get_parameter_names()
+    inner = _build(spec['inner'], 1)
+    have = inner.get_parameter_names()
+    fix = {names_full[int(i)]: v for i, v in spec['fixed'].items()}
+    if any(n not in have for n in fix):
+        return None
+    m = chi.ReducedPopulationModel(inner)
+    m.fix_parameters(fix)
+    return m
+
+
 def _build(spec, n_ids):
     k = spec['kind']
     if k == 'G':
